@@ -453,6 +453,52 @@ func c06Catalogue(k *c06Keys, rt *rapid.T) []c06Outcome {
 			}
 		}))
 	}
+	// 4c. replay of an interrupted session: an honest session A -> B (A targets B) is relayed and recorded; it is cut
+	// at a chosen frame, so that B's handshake fails. Then a party holding no key replays A's recorded frames to B in a
+	// new session. A takes no part in that session: B must not report A.
+	for _, cutAfter := range []int{1, 2, 3, 4} { // frames relayed before the cut: A hello, B hello, A authenticate, B accept
+		cutAfter := cutAfter
+		var fromA [][]byte
+		func() {
+			ca, cma := c06Pipe()
+			cb, cmb := c06Pipe()
+			doneA := c06RunRequester(ca, k.A, k.B.GetPublic())
+			doneB := c06RunResponder(cb, k.B)
+			_ = cma.c.SetDeadline(time.Now().Add(5 * time.Second))
+			_ = cmb.c.SetDeadline(time.Now().Add(5 * time.Second))
+			defer func() { _ = cma.c.Close(); _ = cmb.c.Close(); <-doneA; <-doneB }()
+			for i := 0; i < cutAfter; i++ {
+				src, dst := cma, cmb
+				if i%2 == 1 {
+					src, dst = cmb, cma
+				}
+				raw, err := c06ReadRawFrame(src)
+				if err != nil {
+					return
+				}
+				if i%2 == 0 {
+					fromA = append(fromA, raw)
+				}
+				if c06WriteRawFrame(dst, raw) != nil {
+					return
+				}
+			}
+		}()
+		out = append(out, c06AttackResponder(k, fmt.Sprintf("replay-of-interrupted-session/cut-after-%d-frames", cutAfter), func(cm *c06Conn, o *c06Outcome) {
+			for i, raw := range fromA {
+				if c06WriteRawFrame(cm, raw) != nil {
+					return
+				}
+				if i == 1 {
+					o.passedBox = true // a genuine proof of A, recorded in the interrupted session
+				}
+				if _, err := c06ReadRawFrame(cm); err != nil {
+					return
+				}
+			}
+			_ = cm.w.WriteMsg(&RequesterAcknowledgePayload{Success: true})
+		}))
+	}
 	// 5. reflection and re-ordering
 	out = append(out, c06AttackResponder(k, "reflect-responder-hello-as-authenticate", func(cm *c06Conn, o *c06Outcome) {
 		if cm.sendHello(honestPub) != nil {
